@@ -17,6 +17,11 @@ EXTENDS FetchSched, Json, IOUtils, SequencesExt
 
 Rec == ndJsonDeserialize(IOEnv.TRACE)
 
+\* the instance the log was recorded on: all runs of one log share the fetch capacity and the set of
+\* persistent peers (the driver groups the runs accordingly); the cfg substitutes these for the constants
+TCapacity == Rec[1].capacity
+TPersistent == ToSet(Rec[1].persistent)
+
 VARIABLE l
 tvars == <<vars, l>>
 
@@ -49,24 +54,31 @@ Reset ==
     /\ sfetch' = [p \in Peer |-> {}] /\ queue' = [p \in Peer |-> <<>>]
     /\ fetching' = [r \in Repo |-> NoFetch] /\ tasks' = <<>> /\ live' = {} /\ applied' = <<>> /\ hist' = <<>>
     /\ routing' = {} /\ syncIn' = 0
+    /\ ToSet(Rec[l].persistent) = Persistent /\ Rec[l].capacity = Capacity     \* the log belongs to this instance
     /\ link' = [p \in Peer |-> IF p \in Persistent THEN "out" ELSE "none"]
     /\ wire' = [p \in Peer |-> "none"] /\ dial' = [p \in Peer |-> p \in Persistent]
+
+\* Steps the harness did not pass on (a disconnection without a connection, an outbound connection without
+\* a dial, ...) and inputs the service ignores leave everything as it is.
+Noop == UNCHANGED vars
 
 Step ==
     /\ Rec[l].ev = "step"
     /\ LET o == Rec[l]
            op == o.op
            n == op[1]
-       IN /\ CASE n = "connect" -> Connect(op[2], op[3])
+           skipped == "skipped" \in DOMAIN o.info
+       IN /\ CASE skipped -> Noop
+                [] n = "connect" -> Connect(op[2], o.info.dir)          \* the direction the harness established
                 [] n = "dialfail" -> DialFail(op[2])
-                [] n = "attempted" -> Attempt(op[2])
+                [] n = "attempted" -> IF st[op[2]] = "initial" /\ dial[op[2]] THEN Attempt(op[2]) ELSE Noop
                 [] n = "disconnect" -> Disconnect(op[2])
-                [] n = "stale_disconnect" -> StaleDisconnect(op[2])
+                [] n = "stale_disconnect" -> IF wire[op[2]] # "none" THEN StaleDisconnect(op[2]) ELSE Noop
                 [] n = "fetch" -> FetchCmd(op[2], op[3])
-                [] n = "annfetch" -> AnnFetch(op[2], op[3])
+                [] n = "annfetch" -> IF op[3] \in conn /\ wire[op[3]] # "none" THEN AnnFetch(op[2], op[3]) ELSE Noop
                 [] n = "done" -> IF op[2] \in DOMAIN tasks /\ tasks[op[2]].st = "running"
                                  THEN TaskDone(op[2], op[3] = "ok")
-                                 ELSE UNCHANGED vars          \* a task finishes once
+                                 ELSE Noop                                  \* a task finishes once
                 [] n = "idle" -> Wake
           /\ Matches(o)
 
